@@ -262,8 +262,12 @@ fn plan_from_history(c: &Case, rng: &mut Rng, out: &mut Vec<Planned>, per_step: 
             let mut data = view.data.clone();
             let mut labels = vec![];
             for _ in 0..rng.range(1, 3) {
-                if let Some(l) = tamper::mutate_structure(rng, &mut data, &attacker.id) {
-                    labels.push(l);
+                // a tamper operation that does not fit the (already tampered) structure is skipped, not run
+                let before = data.clone();
+                match crate::invoke::guarded(|| tamper::mutate_structure(rng, &mut data, &attacker.id)) {
+                    Ok(Some(l)) => labels.push(l),
+                    Ok(None) => {}
+                    Err(_) => data = before,
                 }
             }
             if labels.is_empty() {
